@@ -117,14 +117,18 @@ def trees(tier):
     # in every argument position
     for tiny, huge in (('1e-18', '1e18'), ('3e-25', '1e25'), ('2.5e-300', '1e300'), ('7e-17', '1e16')):
         T_, H_ = ('num', tiny), ('num', huge)
-        out.append(('mag', ('*', ('*', T_, ('id', 'A')), H_)))
-        out.append(('mag', ('*', H_, ('*', ('id', 'C'), T_))))
-        out.append(('mag', ('/', ('*', T_, ('id', 'A')), ('*', T_, ('id', 'S')))))
-        out.append(('mag', ('/', ('id', 'A'), ('*', H_, T_))))
+        half = ('num', '%g' % (float(tiny) / 2))
+        # forms that sympy's automatic folding of numeric coefficients cannot collapse (no bare products of literals)
+        out.append(('mag', ('log', ('*', T_, ('id', 'S')))))
+        out.append(('mag', ('log', ('*', H_, ('id', 'S')))))
+        out.append(('mag', ('/', T_, ('+', T_, ('*', T_, ('id', 'A'))))))
+        out.append(('mag', ('/', ('id', 'C'), ('+', H_, ('*', H_, ('id', 'A'))))))
+        out.append(('mag', ('*', H_, ('max', ('*', T_, ('id', 'A')), ('*', half, ('id', 'S'))))))
+        out.append(('mag', ('*', H_, ('abs', ('-', ('*', T_, ('id', 'A')), ('*', half, ('id', 'S')))))))
+        out.append(('mag', ('step', ('-', ('*', T_, ('id', 'S')), half))))
         out.append(('mag', ('*', ('exp', ('neg', ('*', T_, ('id', 'A')))), ('id', 'Q'))))
-        out.append(('mag', ('*', ('+', ('id', 'A'), T_), ('id', 'S'))))
-        out.append(('mag', ('log', ('*', ('*', T_, ('id', 'S')), H_))))
-        out.append(('mag', ('^', ('*', T_, H_), ('id', 'x2'))))
+        out.append(('mag', ('*', ('*', T_, ('id', 'A')), H_)))
+        out.append(('mag', ('^', ('+', T_, ('*', T_, ('id', 'A'))), ('num', 0))))
     four = [('id', 'A'), ('id', 'x2'), ('id', 'C'), ('id', 'O'), ('id', 'S')]
     for op in ('min', 'max'):
         for n_ in (3, 4, 5):
